@@ -961,8 +961,8 @@ theorem reset_resumable_all_stages (H : Hist) {B S : Nat} (hB : 1 < B) (n n' : N
     (t : Nat) (bs : List Batch) (hreset : reset H B S n t = .ok (bs, n')) (hbs : bs ≠ []) :
     let b1 := ofWrites [(Key.syncPoint, some (Val.ptr t)), marker stJumpStarted]
     let d1 := applyBatch b1 n.db
-    ∃ (b2 : List Batch) (d2 : Db) (cur x r : Nat) (p0 : Bool),
-      stageBlocks H S t cur d1 = .ok (b2, d2) ∧ d2 = foldBatches b2 d1 ∧
+    ∃ (b2 : List Batch) (d2 : Db) (x r : Nat) (p0 : Bool),
+      stageBlocks H S t n.height d1 = .ok (b2, d2) ∧ d2 = foldBatches b2 d1 ∧
       let c3 := stageCopy t p0 d2
       let c4 := stageHeaders B t n.hdrHeight p0
       let c5 := stageMpt t r
@@ -1048,6 +1048,6 @@ theorem reset_resumable_all_stages (H : Hist) {B S : Nat} (hB : 1 < B) (n n' : N
   have i3 : initHeaders B (applyBatch (stageCopy t p0 d2) d2) = .ok n.hdrHeight := by
     rw [initHeaders_congr B d2 _ (hd3 _ (by simp) (by simp)) (fun q => hd3 _ (by simp) (by simp)) (fun i => hd3 _ (by simp) (by simp))]
     exact i2
-  exact ⟨b2, d2, n.height, x, r, p0, hsb, hd2, hbs', hdb, h1 i1, h2 i2, h3 i3, h4 t i4, h5 t i5, h6 t i6⟩
+  exact ⟨b2, d2, x, r, p0, hsb, hd2, hbs', hdb, h1 i1, h2 i2, h3 i3, h4 t i4, h5 t i5, h6 t i6⟩
 
 end NeoModel.Persist
